@@ -42,6 +42,7 @@ type FuncSpec struct {
 	AtCalls  map[string][]Clause // "callee@n" -> extra call-site preconditions (typestate)
 	AtStores map[string][]Clause // struct type name -> obligation on every store into an object of that type ($p = the object)
 	AfterCalls map[string][]Clause // "callee@n" -> assumptions about the call's result (rely conditions; listed in the evidence)
+	MustCalls  map[string][]Clause // "callee@n" -> condition (over the entry state) under which the call must have happened at every return
 	File     string
 	Line     int
 }
@@ -83,7 +84,7 @@ var clauseKeywords = map[string]bool{
 	"func": true, "spec": true, "axiom": true, "requires": true, "ensures": true, "ensureslocal": true,
 	"modifies": true, "pure": true, "loop": true, "inline": true, "trusted": true,
 	"maypanic": true, "property": true, "returns": true, "flag": true, "use": true,
-	"constglobal": true, "opaque": true, "package": true, "ghostcomp": true, "atcall": true, "aftercall": true, "atstore": true,
+	"constglobal": true, "opaque": true, "package": true, "ghostcomp": true, "atcall": true, "aftercall": true, "atstore": true, "mustcall": true,
 }
 
 var reLabel = regexp.MustCompile(`^@([A-Za-z0-9_.\-]+)\s+`)
@@ -160,7 +161,7 @@ func (ss *SpecSet) loadSpecFile(path, pkgName string) error {
 					rets = append(rets, strings.TrimSpace(x))
 				}
 			}
-			cur = &FuncSpec{Pkg: pkgName, Name: name, Returns: rets, Loops: map[int]*LoopSpec{}, Flags: map[string]string{}, AtCalls: map[string][]Clause{}, AfterCalls: map[string][]Clause{}, AtStores: map[string][]Clause{}, File: path, Line: rc.line}
+			cur = &FuncSpec{Pkg: pkgName, Name: name, Returns: rets, Loops: map[int]*LoopSpec{}, Flags: map[string]string{}, AtCalls: map[string][]Clause{}, AfterCalls: map[string][]Clause{}, MustCalls: map[string][]Clause{}, AtStores: map[string][]Clause{}, File: path, Line: rc.line}
 			if _, dup := ss.Funcs[cur.Key()]; dup {
 				return fmt.Errorf("%s:%d: duplicate contract for %s", path, rc.line, cur.Key())
 			}
@@ -289,6 +290,18 @@ func (ss *SpecSet) loadSpecFile(path, pkgName string) error {
 					return err
 				}
 				cur.AfterCalls[parts[0]] = append(cur.AfterCalls[parts[0]], c)
+			case "mustcall":
+				// mustcall <callee>@<n> when <expr>   (on every return path on which <expr> - over the
+				// entry state - holds, the n-th call of callee has been executed)
+				parts := strings.SplitN(rest, " ", 3)
+				if len(parts) < 3 || parts[1] != "when" {
+					return fmt.Errorf("%s:%d: expected 'mustcall <callee>@<n> when <expr>'", path, rc.line)
+				}
+				c, err := mkClause(strings.TrimSpace(parts[2]))
+				if err != nil {
+					return err
+				}
+				cur.MustCalls[parts[0]] = append(cur.MustCalls[parts[0]], c)
 			case "atcall":
 				// atcall <callee>@<n> requires <expr>
 				parts := strings.SplitN(rest, " ", 3)
